@@ -79,3 +79,20 @@ Definition check_frame (d c : list Z) (typ : Z) (payload real : list Z) : Z :=
 
 (* expand 8-byte big-endian words back into bytes (the driver ships long byte strings as 64-bit words) *)
 Definition unwords (n : Z) (ws : list Z) : list Z := firstn (Z.to_nat n) (flat_map (be 8) ws).
+
+(* column segment: header mode read from the real bytes, rows of the segment, real segment bytes *)
+Fixpoint bools_eqb (a b : list bool) : bool :=
+  match a, b with
+  | [], [] => true
+  | x :: a', y :: b' => Bool.eqb x y && bools_eqb a' b'
+  | _, _ => false
+  end.
+Definition check_seg (t : ctype) (m : hmode) (rows : list row) (real : list Z) : Z :=
+  (if seg_applicable m rows then 0 else 1) +
+  match seg_dec t (len rows) real with
+  | Some (valid, payload) =>
+      (if bools_eqb valid (validity rows) then 0 else 4) +
+      (if list_eqb (seg_enc_with t m payload rows) real then 0 else 2)
+  | None => 6
+  end.
+Definition le8 (v : Z) : list Z := le 8 v.
